@@ -701,7 +701,9 @@ func Walk(n Node, visit func(n Node) bool) {
 				if n.X != nil {
 					stack = append(stack, n.X)
 				}
-				stack = append(stack, n.Name)
+				if n.Name != nil {
+					stack = append(stack, n.Name)
+				}
 			}
 		case *SummarizeOperator:
 			if visit(n) {
